@@ -428,7 +428,7 @@ def decode_any(model, sx, st, v, depth=0):
 
 
 # ------------------------------------------------------------------------- run one unit (worker)
-def run_unit(unit_key, sidecar_modules, tier="quick", timeout_ms=None, pass_name="main", assume_not=(), assume=None):
+def run_unit(unit_key, sidecar_modules, tier="quick", timeout_ms=None, pass_name="main", assume_not=(), assume=None, only_prop=None):
     """executed in a worker process: returns a picklable report"""
     import importlib
 
@@ -458,6 +458,13 @@ def run_unit(unit_key, sidecar_modules, tier="quick", timeout_ms=None, pass_name
             rep["props"] = unit.props
         tmo = timeout_ms or (10000 if tier == "quick" else 60000)
         only = os.environ.get("PYVC_ONLY")
+        # per-obligation property tags (a unit may serve several properties through different clauses)
+        for ob in sx.obligations:
+            for (pat, pr) in getattr(unit, "obligation_props", None) or ():
+                if pat in ob.name:
+                    ob.props = list(pr)
+                    break
+        sx.obligations = [ob for ob in sx.obligations if only_prop is None or only_prop in (ob.props or unit.props) or ob.kind == "canary"]
         refuted_canaries = set()
         for ob in sx.obligations:
             if only and only not in ob.name:
